@@ -62,6 +62,9 @@ var resetKeep = map[string]string{
 	"World.targetEntities": "covered field-wise through type bitSet",
 }
 
+// fields that Reset must leave alone (ids, registrations and the listener stay valid across Reset)
+var resetMustKeep = map[string]bool{"World.listener": true, "World.registry": true, "Resources.registry": true}
+
 func isConstructorName(n string) bool {
 	return strings.HasPrefix(n, "new") || strings.HasPrefix(n, "New") || n == "fromConfig" || n == "init"
 }
@@ -89,6 +92,7 @@ func c15r1(p *Prog, r *Reporter) {
 		}
 	}
 	resetPaths := p.Mod(reset).Paths()
+	c15r1keep(p, r, resetPaths)
 	for _, st := range resetTypes {
 		n := p.Named("ecs." + st.name)
 		if n == nil {
@@ -140,6 +144,40 @@ func c15r1(p *Prog, r *Reporter) {
 			} else {
 				r.Bad("ecs.(*World).Reset", "resets "+key, p.Pos(stt.Field(i).Pos()), "the field is run state (written by "+writer+") but World.Reset never writes it and it is not on the keep-list: a reset world would not behave like a fresh one")
 			}
+		}
+	}
+}
+
+// must-keep: state that stays valid across Reset by contract must not be in Reset's mod-set at all
+func c15r1keep(p *Prog, r *Reporter, resetPaths []string) {
+	at := map[string]string{}
+	for _, st := range resetTypes {
+		at[st.name] = st.at
+	}
+	var keys []string
+	for k := range resetMustKeep {
+		keys = append(keys, k)
+	}
+	sort.Strings(keys)
+	for _, key := range keys {
+		i := strings.Index(key, ".")
+		fv := p.Field("ecs." + key)
+		if fv == nil {
+			r.Anchor("ecs." + key)
+			continue
+		}
+		want := at[key[:i]] + "." + key[i+1:]
+		touched := ""
+		for _, rp := range resetPaths {
+			if rp == want || strings.HasPrefix(rp, want+".") || strings.HasPrefix(rp, want+"[") || strings.HasPrefix(rp, want+"{") {
+				touched = rp
+			}
+		}
+		pos := p.Pos(fv.Pos())
+		if touched != "" {
+			r.Bad("ecs.(*World).Reset", "leaves "+key+" alone", pos, "Reset writes "+touched+", but this state is kept by contract ("+resetKeep[key]+"): ids and registrations obtained before the reset would go stale")
+		} else {
+			r.OK("ecs.(*World).Reset", "leaves "+key+" alone", pos, "kept by contract and not in Reset's mod-set: "+resetKeep[key])
 		}
 	}
 }
